@@ -2,7 +2,7 @@
 re-used as a *source of scripts* (no reference model needed there - those checks are relational or structural)."""
 
 
-def any_script(rng, kinds=None):
+def any_script(rng, kinds=None, exclude_mixed=()):
     """-> (source name, ddl text).  Sources: statement mixes, core/clause tables in several layouts, ALTER/INDEX histories,
     dialect clause tables, nested/parameterised types, hostile identifiers, entity declarations, sequences, commented scripts."""
     from vf.gen import schema as S
@@ -11,7 +11,8 @@ def any_script(rng, kinds=None):
     kinds = kinds or ["mixed", "mixed", "mixed", "tables", "tables", "history", "dialect", "types", "idents", "entities", "sequences", "commented"]
     k = rng.choice(kinds)
     if k == "mixed":
-        return k, GS.gen_mixed(rng, with_comments=0.2)["text"]
+        mk = [x for x in GS.all_kinds() if x not in exclude_mixed] if exclude_mixed else None
+        return k, GS.gen_mixed(rng, kinds=mk, with_comments=0.2)["text"]
     if k == "tables":
         ts = [S.gen_table(rng, q, max_cols=6, clauses=True) for q in range(rng.randint(1, 3))]
         layout = rng.choice([None, {"case": "lower"}, {"case": "random", "ws": True}])
